@@ -29,6 +29,14 @@
 //	(utf8 <bytes>)                  ((<rune> <width>)...)                   utf8.DecodeRuneInString along the string
 //	(utf8-enc <rune>)               <bytes>                                 utf8.AppendRune
 //
+//	(href-rt <path>)                (<text> <hobs>)        Href{Path: p}.MarshalText then Href.UnmarshalText
+//	(href-e2e <path>)               (<hobs> (ok <path>)|(err))  the href through xml.Marshal/Unmarshal of a real multistatus, and
+//	                                                        FileInfo.Path through a real PROPFIND (Client.Stat)
+//	(href-dec <text>)               <hobs>                 Href.UnmarshalText
+//	(href-restr <text>)             (err)|(ok <text> <hobs>)   UnmarshalText, then String of the result, then UnmarshalText of that
+//	  <hobs> = (ok <user?> <host> <scheme> <opaque> <path> <rawpath> <omithost> <forcequery> <rawquery> <fragment> <rawfragment>)|(err)|(panic)
+//	(time-e2e <secs> <off>)         (ok <secs> <nsec>)|(err)   FileInfo.ModTime through a real PROPFIND (Client.Stat)
+//
 // Stages (-stage): small (Depth, Overwrite, status line), ... ; -replay re-executes
 // the inputs of the given case lines whatever their stage.
 package main
@@ -41,6 +49,7 @@ import (
 	"io"
 	"net/http"
 	"net/http/httptest"
+	"net/url"
 	"os"
 	"runtime"
 	"strconv"
@@ -368,6 +377,97 @@ func utf8Obs(s string) string {
 	return hx.L(items...)
 }
 
+// ---------------------------------------------------------------- hrefs
+
+func hrefObsOf(h *verifhook.Href) string {
+	u := (*url.URL)(h)
+	return hx.L("ok", hx.B(u.User != nil), hx.S(u.Host), hx.S(u.Scheme), hx.S(u.Opaque), hx.S(u.Path), hx.S(u.RawPath),
+		hx.B(u.OmitHost), hx.B(u.ForceQuery), hx.S(u.RawQuery), hx.S(u.Fragment), hx.S(u.RawFragment))
+}
+
+func hrefDecObs(text string) string {
+	return guard(func() string {
+		var h verifhook.Href
+		if err := h.UnmarshalText([]byte(text)); err != nil {
+			return obsErr()
+		}
+		return hrefObsOf(&h)
+	})
+}
+
+func hrefRT(p string) string {
+	return guard(func() string {
+		h := verifhook.Href{Path: p}
+		b, err := h.MarshalText()
+		if err != nil {
+			return obsErr()
+		}
+		if h.String() != string(b) {
+			return obsErr()
+		}
+		return hx.L(hx.S(string(b)), hrefDecObs(string(b)))
+	})
+}
+
+func hrefRestr(text string) string {
+	return guard(func() string {
+		var h verifhook.Href
+		if err := h.UnmarshalText([]byte(text)); err != nil {
+			return obsErr()
+		}
+		s := h.String()
+		return hx.L("ok", hx.S(s), hrefDecObs(s))
+	})
+}
+
+func hrefE2E(p string) string {
+	viaXML := guard(func() string {
+		ms := verifhook.NewMultiStatus(verifhook.Response{Hrefs: []verifhook.Href{{Path: p}}})
+		body, err := xml.Marshal(ms)
+		if err != nil {
+			return obsErr()
+		}
+		var back verifhook.MultiStatus
+		if err := xml.Unmarshal(body, &back); err != nil {
+			return obsErr()
+		}
+		if len(back.Responses) != 1 || len(back.Responses[0].Hrefs) != 1 {
+			return obsErr()
+		}
+		return hrefObsOf(&back.Responses[0].Hrefs[0])
+	})
+	viaStat := guard(func() string {
+		fs := &stubFS{stat: &webdav.FileInfo{Path: p, Size: 0, ModTime: time.Unix(0, 0)}}
+		h := &webdav.Handler{FileSystem: fs}
+		c, err := webdav.NewClient(inProc{h}, "http://example.org/")
+		if err != nil {
+			return obsErr()
+		}
+		fi, err := c.Stat(context.Background(), "/f")
+		if err != nil {
+			return obsErr()
+		}
+		return strObs(fi.Path, nil)
+	})
+	return hx.L(viaXML, viaStat)
+}
+
+func timeE2E(secs, off int64) string {
+	return guard(func() string {
+		fs := &stubFS{stat: &webdav.FileInfo{Path: "/f", Size: 0, ModTime: inZone(secs, off)}}
+		h := &webdav.Handler{FileSystem: fs}
+		c, err := webdav.NewClient(inProc{h}, "http://example.org/")
+		if err != nil {
+			return obsErr()
+		}
+		fi, err := c.Stat(context.Background(), "/f")
+		if err != nil {
+			return obsErr()
+		}
+		return timeObs(fi.ModTime, nil)
+	})
+}
+
 // ---------------------------------------------------------------- dispatch
 
 func exec(in string) string {
@@ -421,6 +521,16 @@ func exec(in string) string {
 		obs = strObs(u, err)
 	case "utf8":
 		obs = utf8Obs(a[0].Str())
+	case "href-rt":
+		obs = hrefRT(a[0].Str())
+	case "href-e2e":
+		obs = hrefE2E(a[0].Str())
+	case "href-dec":
+		obs = hrefDecObs(a[0].Str())
+	case "href-restr":
+		obs = hrefRestr(a[0].Str())
+	case "time-e2e":
+		obs = timeE2E(a[0].Int(), a[1].Int())
 	case "utf8-enc":
 		obs = hx.S(string(utf8.AppendRune(nil, rune(a[0].Int()))))
 	default:
@@ -611,6 +721,9 @@ func genDate(emit func(string), r *hx.Rand, thorough bool) {
 			}
 			emit(hx.L("time-rt", hx.I(t), hx.I(o)))
 			emit(hx.L("ical-rt", hx.I(t), hx.I(o)))
+			if r.Intn(4) == 0 {
+				emit(hx.L("time-e2e", hx.I(t), hx.I(o)))
+			}
 		}
 	}
 	n := 12000
@@ -626,6 +739,9 @@ func genDate(emit func(string), r *hx.Rand, thorough bool) {
 		emit(hx.L("civil", hx.I(t)))
 		emit(hx.L("time-rt", hx.I(t), hx.I(o)))
 		emit(hx.L("ical-rt", hx.I(t), hx.I(o)))
+		if i%8 == 0 {
+			emit(hx.L("time-e2e", hx.I(t), hx.I(o)))
+		}
 	}
 	// outside the domain of the property (years < 0 or > 9999): model agreement only
 	for i := 0; i < n/20; i++ {
@@ -899,6 +1015,134 @@ func genETag(emit func(string), r *hx.Rand, thorough bool) {
 	}
 }
 
+// path segments of interest: characters that need escaping, that look like URL syntax, broken UTF-8
+var segPool = []string{"a", "b c", "a%20b", "%", "%41", "%zz", "%2", "%2F", "%2f", "x?y", "x#y", "a:b", ":", ";v=1", "a,b", "a@b", "a&b=c", "+", "a+b", "$", "!", "'", "(x)", "*",
+	"caf\xc3\xa9", "\xe2\x82\xac", "\xf0\x9f\x98\x80", "\xff", "\xc3", "\x80", " ", "  ", "\t", "\n", "\r\n", "\x00", "\x7f", "\x1f", "\"", "<", ">", "\\", "^", "`", "{", "|", "}", "[", "]", "~", "-", "_", ".",
+	"..", "...", "", "http:", "http://h", "//", "?", "#", "&amp;", "<a>", "]]>", "%25", "%3F", "%23", "a=b", "A", "Z", "0", "9", "z"}
+
+func randPath(r *hx.Rand) string {
+	n := r.Intn(5)
+	p := ""
+	for i := 0; i < n; i++ {
+		p += "/"
+		switch r.Intn(6) {
+		case 0:
+			p += randBytes(r, 5)
+		case 1:
+			p += randTag(r, 3)
+		default:
+			p += r.Pick(segPool)
+		}
+	}
+	switch r.Intn(12) {
+	case 0:
+		p += "/"
+	case 1:
+		if len(p) > 0 {
+			p = p[1:] // relative: outside the domain
+		}
+	case 2:
+		p = "/" + p // may start with "//": outside the domain
+	}
+	return p
+}
+
+func genHref(emit func(string), r *hx.Rand, thorough bool) {
+	rt := func(p string) { emit(hx.L("href-rt", hx.S(p))) }
+	e2e := func(p string) { emit(hx.L("href-e2e", hx.S(p))) }
+	dec := func(t string) {
+		emit(hx.L("href-dec", hx.S(t)))
+		emit(hx.L("href-restr", hx.S(t)))
+	}
+	// round trip: every byte alone in a segment, at the start of the first segment, every pair of interesting bytes
+	for b := 0; b < 256; b++ {
+		c := string([]byte{byte(b)})
+		rt("/" + c)
+		rt("/a" + c + "z")
+		rt("/a/" + c + "/")
+		rt(c) // relative (outside the domain, except "/")
+		rt("/" + c + c)
+		e2e("/a" + c + "z") // XML cannot carry control characters; the escaped href can
+	}
+	inter := []byte("/%?#:;@ +\x00\n\x7f\x80\xc3\xa9\xffaZ09.~*")
+	for _, x := range inter {
+		for _, y := range inter {
+			rt("/" + string([]byte{x, y}))
+			rt(string([]byte{x, y}))
+			rt("/p/" + string([]byte{x, y}) + "/q")
+		}
+	}
+	for _, sg := range segPool {
+		rt("/" + sg)
+		rt("/" + sg + "/")
+		rt("/x/" + sg)
+		rt(sg)
+		rt("//" + sg)
+		e2e("/" + sg)
+		e2e("/x/" + sg + "/y")
+		for _, sg2 := range segPool {
+			rt("/" + sg + "/" + sg2)
+		}
+	}
+	for _, p := range []string{"", "/", "//", "///", "*", "/*", ".", "..", "/.", "/..", "/./a", "/a/../b", "a:b", "a:b/c", "a/b:c", "./a:b", "/a:b", "http://h/p", "//h/p", "/%2F", "/a%2Fb", "/a b/c d"} {
+		rt(p)
+		e2e(p)
+	}
+	n := 8000
+	if thorough {
+		n = 300000
+	}
+	for i := 0; i < n; i++ {
+		p := randPath(r)
+		rt(p)
+		if i%4 == 0 {
+			e2e(p)
+		}
+	}
+
+	// decoders: what the encoder sends, its one-edit neighbours, hand-made texts of every branch of url.Parse, random texts
+	hand := []string{"", "/", "//", "///", "////", "///a", "//h", "//h/", "//h/p", "//h:80/p", "//u@h/p", "//u:p@h/p", "//[::1]/p", "//[::1/p", "//h h/p", "//h%20/p", "//%zz/p", "//h/%zz",
+		"//h?q", "//?q", "//#f", "//h#f", "/?", "/?q", "/??", "/?q?", "/a?", "/a?b=c&d", "/a?%zz", "/a? b", "/a#", "/a#f", "/a#%zz", "/a#%41", "/a#f#g", "/a#\n", "/a?\n", "/a\n", "\n", "\x7f", "/a\x00",
+		"*", "*?q", "*#f", "**", "/*", "a", "a/b", "a/b:c", "a:b", "a:", ":", ":a", ":/", "a:/", "a:/b", "a://", "a:///", "a:///p", "a://h", "a://h/p", "a:/p?q#f", "a:b?q", "a:b#f", "a:?", "a:#",
+		"HTTP://H/P", "hTtP:/x", "a+b-c.d:e", "1a:b", "+a:b", "a_b:c", "a b:c", "a/b:c", "a?b:c", "a#b:c", "./a:b", "../a:b", ".:", "%41:b", "a%3Ab", "é:b", "http:", "http:a b", "http:%zz", "mailto:a@b",
+		"/%", "/%4", "/%41", "/%4g", "/%g1", "/%2f", "/%2F", "/%25", "/%00", "/%ff", "/%FF", "/a%20b", "/a b", "/a+b", "/caf\xc3\xa9", "/caf%C3%A9", "/caf%c3%a9", "/\xff", "/a\"b", "/a<b>", "/a\\b", "/a^b", "/a`b",
+		"/a{b}", "/a|b", "/a[b]", "/a;b", "/a,b", "/a:b", "/a@b", "/a&b", "/a=b", "/a$b", "/a!b", "/a'b", "/a(b)", "/a*b", "/a~b", "/-._~", "/a//b", "/a/./b", "/a/../b", "/a/", "/a/b/",
+		"/?#", "/#?", "#", "#f", "?", "?q", "?#", "a?", " ", " /a", "/a ", "/ ", "\t/a"}
+	for _, t := range hand {
+		dec(t)
+	}
+	alts := []byte("/%?#: a2G\x00\xff")
+	var sample []string
+	for i := 0; i < 30; i++ {
+		sample = append(sample, randPath(r))
+	}
+	for _, p := range append(sample, "/a/b", "/a b/caf\xc3\xa9", "/x?y#z%", "/a:b/c") {
+		h := verifhook.Href{Path: p}
+		t := h.String()
+		dec(t)
+		for _, m := range nearMisses(t, alts) {
+			dec(m)
+		}
+	}
+	pieces := []string{"/", "/", "/", "a", "b c", "%20", "%41", "%", "%4", "%zz", "?", "#", ":", "//", "h", "@", "http:", "é", "\xff", "\n", " ", "+", "*", ";", "=", "&", "[", "]", "."}
+	for i := 0; i < n; i++ {
+		var t string
+		switch r.Intn(3) {
+		case 0:
+			k := r.Intn(7)
+			for j := 0; j < k; j++ {
+				t += r.Pick(pieces)
+			}
+		case 1:
+			h := verifhook.Href{Path: randPath(r)}
+			t = h.String() + r.Pick([]string{"", "", "?q", "?", "#f", "?a=b#f", "#%zz", " "})
+		default:
+			t = randBytes(r, 12)
+		}
+		dec(t)
+	}
+}
+
 // ---------------------------------------------------------------- main
 
 func main() {
@@ -945,6 +1189,8 @@ func main() {
 		genDate(emit, rng, thorough)
 	case "etag":
 		genETag(emit, rng, thorough)
+	case "href":
+		genHref(emit, rng, thorough)
 	default:
 		fmt.Fprintln(os.Stderr, "c16: unknown stage", *stage)
 		os.Exit(2)
